@@ -1521,23 +1521,33 @@ func c16R3(p *Prog, r *Report) {
 		info := fi.Pkg.TypesInfo
 		site := fmt.Sprintf("%s/%s.%s", w.fn, w.typ, w.field)
 		found := false
-		ast.Inspect(fi.Decl, func(n ast.Node) bool {
-			cl, ok := n.(*ast.CompositeLit)
-			if !ok || !isNamed(info.TypeOf(cl), w.typPkg, w.typ) {
+		for _, rf := range p.Region(w.fn) {
+			rf := rf
+			ast.Inspect(rf.Decl, func(n ast.Node) bool {
+				cl, ok := n.(*ast.CompositeLit)
+				if !ok || !isNamed(info.TypeOf(cl), w.typPkg, w.typ) {
+					return true
+				}
+				v := compositeField(cl, w.field)
+				if v == nil {
+					return true
+				}
+				found = true
+				// a literal built in a private helper from its parameters: judge the argument at the call site
+				in := rf
+				if id, isID := ast.Unparen(v).(*ast.Ident); isID && rf != fi {
+					if e, f := originExpr(p, rf, id, 0); e != nil && f != nil {
+						v, in = e, f
+					}
+				}
+				if w.check(info, in, v) {
+					r.OK(site, p.PosStr(v.Pos()), "wired to "+exprString(v))
+				} else {
+					r.Bad(site, p.PosStr(v.Pos()), "wired to "+exprString(v)+", which is not the corresponding option")
+				}
 				return true
-			}
-			v := compositeField(cl, w.field)
-			if v == nil {
-				return true
-			}
-			found = true
-			if w.check(info, fi, v) {
-				r.OK(site, p.PosStr(v.Pos()), "wired to "+exprString(v))
-			} else {
-				r.Bad(site, p.PosStr(v.Pos()), "wired to "+exprString(v)+", which is not the corresponding option")
-			}
-			return true
-		})
+			})
+		}
 		if !found {
 			r.Bad(site, p.PosStr(fi.Decl.Pos()), "field is not set: the option does not reach its consumer")
 		}
